@@ -256,6 +256,8 @@ type named struct {
 
 type walker struct {
 	out []named
+	// pings: ping ids named by the well-formed pongs of the payload (top level, in containers, gzip-packed, or as an rpc_result body)
+	pings []int64
 	// uncertain: the payload contains a gzip stream that compress/gzip rejects or that inflates to
 	// 10 MiB or more; what a decoder routes from it is not judged.
 	uncertain bool
@@ -326,8 +328,15 @@ func (w *walker) walk(b []byte) {
 		case reftl.IDRPCError:
 			w.out = append(w.out, named{id, "error", nil})
 		case reftl.IDPong:
+			if len(body) >= 20 {
+				w.pings = append(w.pings, int64(binary.LittleEndian.Uint64(body[12:])))
+			}
 		default:
 			w.out = append(w.out, named{id, "result", body})
+		}
+	case reftl.IDPong:
+		if len(b) >= 20 {
+			w.pings = append(w.pings, int64(binary.LittleEndian.Uint64(b[12:])))
 		}
 	case reftl.IDBadMsg, reftl.IDBadSalt:
 		if len(b) >= 12 {
@@ -520,6 +529,19 @@ func judge(payload []byte, pendingSet string) kit.Result {
 			lbl = append(lbl, name+"=error")
 		}
 	}
+	if obs.pong {
+		// the waiter of ping P was released: some pong of the payload must carry ping_id P
+		namedP := false
+		for _, id := range w.pings {
+			if id == pingP {
+				namedP = true
+			}
+		}
+		if !namedP && !w.uncertain {
+			return kit.Bad("pong-misrouted", "the waiter of ping %#x was released although no pong in the payload carries that ping_id; ping ids in the payload: %x", pingP, w.pings)
+		}
+		lbl = append(lbl, "P=pong")
+	}
 	out := "routed:none"
 	if len(lbl) > 0 {
 		out = "routed:" + strings.Join(lbl, ",")
@@ -616,7 +638,8 @@ func main() {
 			"every ordered pair of generated messages in one container; each corpus file: as is, in a container, gzip-packed, in rpc_result for A and for C, in a container next to a result for B (thorough: also cut at every word, plain and inside rpc_result A). "+
 			"Deep nesting in a worker process (4 GiB limit): containers nested 3000 deep (thorough 8000; time and memory of the handler are quadratic in the depth because every level copies its body, so the depth is kept where that stays below 1 GiB), gzip nested 200 (1000), rpc_result 10000 (100000), alternating 200 (1000). "+
 			"Oracle: no panic / crash; a reference walk of the payload (containers, gzip via compress/gzip, rpc_result, rpc_error, bad_msg) lists which ids are named with which result bodies; the Output decoder of a pending request may only be "+
-			"called with the body of an rpc_result naming its id, and a pending request may only fail with a payload-supplied error if an rpc_error result or bad_msg notification names its id. distinct = distinct witnesses; payloads shorter than 4 bytes are trivial.",
+			"called with the body of an rpc_result naming its id, a pending request may only fail with a payload-supplied error if an rpc_error result or bad_msg notification names its id, "+
+			"and the waiter of the one awaited ping P may only be released if a pong (top level, in a container, gzip-packed or as an rpc_result body) carries ping_id P. distinct = distinct witnesses; payloads shorter than 4 bytes are trivial.",
 			len(baseNames), len(corpus))
 		c.Assume("completion of a request is observed through rpc.Engine.Do's return value; after handleMessage returned, the harness completes still pending requests with a sentinel error so that the observation does not depend on scheduling")
 		c.Assume("payloads containing a gzip stream that compress/gzip rejects or that inflates to >= 10 MiB are only checked for crashes (label gzip-unjudged)")
